@@ -359,6 +359,27 @@ def prange_case(quick):
         for rep_ in range(2 if quick else 3):
             runs.append(dict(dg(min(nt, maxt)), cfg=f"numba-threads:{nt}", kind="threads", timechunked=False, outcome="ok"))
     numba.set_num_threads(maxt)
+    # pixel locality of the driver itself: every pixel alone, and the pixels rearranged
+    rng_ = np.random.RandomState(11)
+    perm = rng_.permutation(24 * 20)
+    flatc = tyx.reshape(30, -1)
+
+    def run_cube(cube):
+        zz, lo = ws2doptvplc_tyx(np.ascontiguousarray(cube), 0.9, ND)
+        return [hashlib.md5(np.ascontiguousarray(zz[:, i, j]).tobytes() + lo[i, j].tobytes()).hexdigest()[:12] for i in range(cube.shape[1]) for j in range(cube.shape[2])]
+
+    pp = run_cube(flatc[:, perm].reshape(30, 24, 20))
+    inv = [None] * len(perm)
+    for newpos, old in enumerate(perm):
+        inv[old] = pp[newpos]
+    runs.append({"px": inv, "dims": base["dims"], "dtype": base["dtype"], "coords": [], "cfg": "tyx:permuted-pixels", "kind": "perm", "timechunked": False, "outcome": "ok"})
+    alone = list(base["px"])
+    for q in (rng_.choice(24 * 20, 40 if quick else 200, replace=False)):
+        alone[q] = run_cube(flatc[:, q : q + 1].reshape(30, 1, 1))[0]
+    runs.append({"px": alone, "dims": base["dims"], "dtype": base["dtype"], "coords": [], "cfg": "tyx:pixels-alone", "kind": "perm", "timechunked": False, "outcome": "ok"})
+    runs.append({"px": run_cube(tyx[:, :, ::-1])[::1], "dims": base["dims"], "dtype": base["dtype"], "coords": [], "cfg": "tyx:x-reversed", "kind": "perm", "timechunked": False, "outcome": "ok"})
+    xr_ = runs[-1]["px"]
+    runs[-1]["px"] = [xr_[i * 20 + (19 - j)] for i in range(24) for j in range(20)]
     return {"op": "blocked", "name": "ws2doptvplc_tyx(prange)", "base": base, "runs": runs}
 
 
